@@ -312,13 +312,19 @@ static cfg_opt_t *cfg_getopt_secidx(cfg_t *cfg, const char *name,
 			title = parse_title(name, &len);
 			if (!title)
 				break;
+			if (name[len] != '\0' && name[len] != '|') {
+				/* garbage after the closing quote */
+				free(title);
+				title = NULL;
+				break;
+			}
 			if (is_set(CFGF_TITLE, opt->flags)) {
 				i = cfg_opt_gettsecidx(opt, title);
 				break;
 			}
 
 			i = strtol(title, &endptr, 0);
-			if (*endptr != '\0')
+			if (endptr == title || *endptr != '\0' || i >= (long int)cfg_opt_size(opt))
 				i = -1;
 		} while(0);
 
@@ -342,7 +348,15 @@ static cfg_opt_t *cfg_getopt_secidx(cfg_t *cfg, const char *name,
 			return NULL;
 
 		name += len;
-		name += strspn(name, "|");
+		if (*name == '|') {
+			name += strspn(name, "|");
+			if (!*name) {
+				/* nothing after the separator */
+				if (!is_set(CFGF_IGNORE_UNKNOWN, cfg->flags))
+					cfg_error(cfg, _("no such option '%s'"), name);
+				return NULL;
+			}
+		}
 	}
 
 	if (!index) {
